@@ -51,6 +51,7 @@ func run(r *ev.Run) {
 	r.Assume("progress is driven by logical events only: client retries, one filler upload, and a bounded number (3 + planned fault occurrences) of IdleWait returns; IdleWait's 5 s loop interval is waited for, never judged; a 90 s watchdog on IdleWait only yields inconclusive")
 	r.Assume("bounded progress of the copy loop: while a blob is durably queued, absent from the destination, and the destination answers a stat, the loop must not be in a closed wait cycle = at 3 successive polls the handler has issued the same lower-layer calls (none open) and a goroutine dump shows its loop goroutine parked in a plain channel operation (or the Wait of runSync's local WaitGroup) inside runSync and every live goroutine that goroutine ever created parked in a plain channel operation with a frame of perkeep's packages server or blobserver on top, or in the hand-over select of one of the three enumerator functions, whose cases are the send on runSync's channel and runSync's interrupt channel (then 5 polls, spanning more than the loop's 5 s timer); runSync's channels are local, so nobody else can complete these operations; anything else that delays IdleWait is inconclusive")
 	r.Assume("start-up recovery (validateOnStart, fullSyncOnStart): blobs that are in the source when the handler starts, without a queue row, are expected at the destination too (the status page documents the validation as ensuring 'that the destination has everything the source does, or is at least enqueued to sync'); validation is waited for through the handler's status page (shards processed = total); a panic of the status page while it is read for that (pacing only) is recovered as net/http would, counted as sync_status_page_panics_recovered and not judged (the statement does not cover the status page); hourlyCompareBytes is not exercised; blobs that are in the source without a queue row are never subjected to copy failures (the statement covers received blobs)")
+	r.Assume("family 'full-sync-reupload': the one exception to 'blobs without a queue row are never subjected to copy failures': the source holds blobs without a queue row when a handler starts with fullSyncOnStart / blockingFullSyncOnStart, every copy of the start-up sync fails transiently (finite), and nothing is owed for that; AFTER those failures the client sends each of these blobs again through the hub in the same process (the harness waits, as pacing only, until the planned failures were delivered); those are ordinary acknowledged uploads and each is owed to the destination after the bounded progress")
 	r.Assume("family 'full-sync-restart': every blob of the scenario was acknowledged and durably queued before the crash; the incarnation that runs fullSyncOnStart / blockingFullSyncOnStart gets a finite number of copy failures (the first per*m destination writes or source reads); delivery is owed for every one of them after the bounded progress")
 	r.Assume("family 'routed': uploads go through blobserver.Receive on a storage-replica [source, second memory store] or on a storage-cond {isSchema -> that replica, else -> source}; the source receives every blob either way, so every acknowledged blob is owed to the destination; an upload counts as through the replica when the second store holds the blob")
 	r.Assume("family 'server': handlers built by serverinit.Load(high-level config)+InstallHandlers in a child process and driven through their HTTP handlers (PUT at the discovered blob root = cond -> replica|/bs/); 'nothing left to copy' is read from the status handler (blobsToCopy of every sync handler = 0) after all uploads were acknowledged; delivered = the index prefix stats the blob with its true size; configurations '+backup' add, to the generated low-level configuration, a storage /backup/ and a second sync handler /bs/ -> /backup/ (the shape genconfig emits for a cloud replica): delivered there = /backup/ stats the blob with its true size, for schema blobs (which /bs/ receives as a backend of the /bs-and-index/ replica) and non-schema blobs alike")
@@ -228,6 +229,23 @@ func run(r *ev.Run) {
 			}
 			r.Count("rows_pending_at_a_faulted_full_sync_start", o.PendingAtLastStart)
 		}
+		if sc.Family == "full-sync-reupload" {
+			r.Count("blobs_sent_again_after_their_start_up_copy_failed", o.ReuploadedAfterFailedStartupCopy)
+			if o.ReuploadedAfterFailedStartupCopy >= sc.PreSrc && sc.PreSrc > 0 {
+				mode := "full-sync-on-start"
+				if sc.Incs[len(sc.Incs)-1].BlockFullSync {
+					mode = "blocking-full-sync-on-start"
+				}
+				rows := "/source-blobs-without-queue-row"
+				if o.PendingAtLastStart > 0 {
+					rows += "+pending-rows"
+				}
+				r.Note("reupload_after_failed_start_up_copy", mode+rows)
+				for _, f := range o.LastIncFaults {
+					r.Note("reupload_after_failed_start_up_copy_fault", f)
+				}
+			}
+		}
 		if sc.Via != "" {
 			r.Count("uploads_through_replica_to_source", o.ThroughReplica)
 			r.Count("uploads_from_cond_straight_to_source", o.DirectFromCond)
@@ -332,7 +350,10 @@ func run(r *ev.Run) {
 	r.Require("schedules", "reupload-during-dst.ReceiveBlob", "reupload-during-queue.Delete", "reupload-during-src.Fetch", "reupload-during-queue.Set",
 		"destination-held-until-workers-busy", "destination-silent-until-crash")
 	r.Require("family_judged", "fault", "restart", "restart-outage", "double-restart", "multi", "designed", "race",
-		"pool", "size-boundary", "backlog", "file-queue", "startup-recovery", "server", "twin", "full-sync-restart", "routed", "attach-race")
+		"pool", "size-boundary", "backlog", "file-queue", "startup-recovery", "server", "twin", "full-sync-restart", "routed", "attach-race", "full-sync-reupload")
+	r.Require("reupload_after_failed_start_up_copy", "full-sync-on-start/source-blobs-without-queue-row", "blocking-full-sync-on-start/source-blobs-without-queue-row",
+		"full-sync-on-start/source-blobs-without-queue-row+pending-rows")
+	r.Require("reupload_after_failed_start_up_copy_fault", "dst-receive-error", "src-fetch-error")
 	r.Require("attach_race", attachCombos()...)
 	r.Require("boundary_size_pending_at_a_restart", "0", "max")
 	r.Require("full_sync_over_pending_rows", "full-sync-on-start", "blocking-full-sync-on-start", "validate-on-start")
